@@ -16,7 +16,7 @@ for n in "${names[@]}"; do
   prop=$(python3 -c "import json;print(json.load(open('$d/meta.json'))['property'])")
   (cd "$SCR/wt" && git checkout -q -- . && git clean -fdq)
   if ! (cd "$SCR/wt" && git apply "$d/patch.diff" 2>/dev/null); then echo "$n: PATCH DOES NOT APPLY"; fail=1; continue; fi
-  out=$("$VERIF/bin/check" "$prop" --repo "$SCR/wt" 2>&1); rc=$?
+  out=$(VERIF_EVIDENCE_DIR="$SCR/ev" VERIF_REPLAY_DIR="$SCR/rp" "$VERIF/bin/check" "$prop" --repo "$SCR/wt" 2>&1); rc=$?
   nv=$(echo "$out" | grep -c '^VIOLATION')
   if [ $rc -eq 0 ] && [ $nv -eq 0 ]; then
     echo "$n: QUIET (check $prop exit 0) $(echo "$out" | grep -o 'inapplicable=[0-9]*' | head -1)"
